@@ -55,7 +55,7 @@ type Mod[T any] struct {
 	// buildable where it was: reloading a list with one rule varied must put the varied rule in force
 	Vary  func(r *rng.R, t *T)
 	SetID func(t *T, id string)
-	Clone    func(t *T) *T
+	Clone func(t *T) *T
 	// probe: one request on res; returns whether it was blocked and by which rule
 	Probe  func(res string) (blocked bool, by *T)
 	Blocks func(t *T) bool // the rule rejects the probe request whatever the history
